@@ -5,7 +5,7 @@ import os, shutil
 import vlib
 
 BODY = '{"bitflip","truncated","appended","other","empty","oversized","shortwrite"}'    # shortwrite: the body is cut off in transit (connection dropped mid-body)
-ALL = '{"bitflip","truncated","appended","other","empty","oversized","s400","s500","s403","s404","reset","shortwrite","stall","cancel","hookfail"}'
+ALL = '{"bitflip","truncated","appended","other","empty","oversized","s400","s500","s403","s404","reset","shortwrite","stall","cancel","hookfail","hookcancel"}'
 INV = ["StoreSound", "ReportedVerified", "FailureIsClean", "Converges", "AnnounceRetryPossible", "ExportBehaviour"]
 
 
